@@ -370,7 +370,11 @@ def run(tier, seed):
     def bare_finally(j):
         return ('F-C05-bare-finally' in findings and int(ometa[j]['i']) in T_bare_c and 'finally ' in ometa[j]['text'].split('\n')[-1]
                 and bool(re.search(r'(?<![A-Za-z0-9_&])__[a-z]', str(ometa[j]['impl']))))
-    only_model = [j for j in mobs_fail if ometa[j]['i'] not in corr_fail and j not in bare_known and not bare_finally(j)]
+    # (a bare decorated literal in a rule body -- 'q(2), _p(1), __p(1) outside &tel -- is not a temporal formula: Tel/Sem.v gives such a
+    # body the meaning of the one-operator formula, telingo treats it as a literal of its own; the comparison of the MODEL's semantics with
+    # telingo is restricted to formulas, the comparison of the IMPLEMENTATION with the reading above is not)
+    only_model = [j for j in mobs_fail if ometa[j]['i'] not in corr_fail and j not in bare_known and not bare_finally(j)
+                  and int(ometa[j]['i']) not in T_bare_c]
     if only_model:
         tie_broken.append('model semantics (Tel/Sem.v) disagrees with telingo on %d sentences, first: %r' % (len(only_model), ometa[only_model[0]]))
     if proof['bad']:
